@@ -23,7 +23,10 @@ def alphabet(sr, sc):
 def sq(sr, sc, seq, block=2):
     p = dict(SR=sr, SC=sc, NOPS=len(seq), OPS_INIT="{" + ",".join("{%d,%d,%d}" % o for o in seq) + "}" if seq else "{{9,0,0}}")
     name = "sparse_seq.c:%dx%d:" % (sr, sc) + ";".join("%s(%d,%d)" % (OPN[o], a, b) if o < 2 else OPN[o] for o, a, b in seq)
+    # the native replay keeps the small entry blocks (the hook only changes allocation granularity: a block-chain
+    # defect needs > 1024 entries to show with the production block size)
     return core.Query("C17", "sparse_seq.c", p, name=name, lib_defs=("-DOPENFEC_VERIF_SPARSE_BLOCK=%d" % block,), lib_exclude=ONLY,
+                      native_defs=("-DOPENFEC_VERIF", "-DOPENFEC_VERIF_SPARSE_BLOCK=%d" % block),
                       unwind=max(sr, sc, block, len(seq)) + 6, free_bits=0, timeout=300, mem_gb=6, flags=("--object-bits", "10"))
 
 
